@@ -17,6 +17,9 @@ pub fn run(thorough: bool) -> Vec<Part> {
         part.assume("error kinds are compared by the element at fault; `InvalidRequest` names both a malformed/overlong request line and an empty Accept-Encoding value");
         let mut cfg = Cfg::base("C02", "grammar-alphabet", alphabet::grammar(if thorough { 1 } else { 0 }), 40);
         cfg.empty_reads = false;
+        // the application answers what it pops; the write of an answer / interim response may fail
+        cfg.answer_requests = true;
+        cfg.write_faults = true;
         let limits = Limits { max_states: 12_000_000, max_secs: if thorough { 1500.0 } else { 120.0 }, ..Default::default() };
         let st = bfs(&cfg, &limits, workers());
         record(&mut part, "grammar-alphabet", &st);
